@@ -50,7 +50,7 @@ static void add(std::vector<Target> &V, const std::string &name, const std::stri
 	t.name = name, t.seedname = seedname, t.seed = seed, t.cat = c, t.run = run, t.expect_accept = expect_accept;
 	// TMCG_Stack / TMCG_StackSecret operator>> allocate TMCG_MAX_STACK_CHARS (671 MB) per call: a thinned catalogue
 	if (name.find("stack") == 0 && name.find(".istream") != std::string::npos)
-		t.stride = thorough ? 23 : 61;
+		t.heavy = true;
 	V.push_back(t);
 }
 
